@@ -240,16 +240,24 @@ def run(repo, rep):
     if not any(t.startswith("new_start_coord[-3] * stride - skirt[0]") for t in st_txt) or not any(t.startswith("new_end_coord[-3] * stride + skirt[2]") for t in en_txt):
         raise AnalysisError("transform_with_strides_and_skirt: row formulas not recognised")
     cps = repo.mod("tflite_graph_optimiser").func("calc_padding_and_skirt")
-    sk = [x.value for x in ast.walk(cps) if isinstance(x, ast.Assign) and str(norm(x.targets[0])) == "skirt" and isinstance(x.value, ast.Tuple) and len(x.value.elts) == 4]
-    if len(sk) != 1:
+    tup = {str(norm(x.targets[0])): x.value for x in ast.walk(cps) if isinstance(x, ast.Assign) and len(x.targets) == 1 and isinstance(x.targets[0], ast.Name)}
+    skv = tup.get("skirt")
+    hops = 0
+    while isinstance(skv, ast.Name) and skv.id in tup and hops < 4:
+        skv, hops = tup[skv.id], hops + 1
+    if not (isinstance(skv, ast.Tuple) and len(skv.elts) == 4):
         raise AnalysisError("calc_padding_and_skirt: skirt tuple not found")
+    sk = [skv]
     pad_total = poly(ast.BinOp(left=sk[0].elts[0], op=ast.Add(), right=sk[0].elts[2]))
-    if pad_total != {("ypad",): 1}:
-        raise AnalysisError(f"skirt top + bottom is not ypad: {pad_total}")
+    pad_total_w = poly(ast.BinOp(left=sk[0].elts[1], op=ast.Add(), right=sk[0].elts[3]))
+    rep.check(pad_total == {("ypad",): 1} and pad_total_w == {("xpad",): 1}, "C03-e", "ethosu/vela/tflite_graph_optimiser.py:calc_padding_and_skirt",
+              "skirt top + bottom = ypad and left + right = xpad: the skirt is the full reach of the kernel past the stripe (it is what sizes the IFM box of an interior stripe), not the padding clipped to the feature map",
+              f"skirt = {str(norm(skv))}: top + bottom = {pad_total}, left + right = {pad_total_w}; with explicit / VALID padding the bottom rows a stripe's kernel reads are not fetched")
+    skirt_ok = pad_total == {("ypad",): 1}
     ntp = repo.mod("graph_optimiser_util").func("needed_total_padding")
     rets = sorted((r_ for r_ in ast.walk(ntp) if isinstance(r_, ast.Return)), key=lambda r_: r_.lineno)
     worst = None
-    for r_ in rets:
+    for r_ in (rets if skirt_ok else []):
         v = r_.value
         inner = v.args[0] if isinstance(v, ast.Call) and call_name(v) == "max" and len(v.args) == 2 else v
         yp = poly(inner)
